@@ -57,7 +57,7 @@ def combine_groups(tier, props=("C13", "C09", "C11", "C12"), config="host", widt
             for kind, bkind in (("owned", "owned"), ("view1", "view0"), ("view0", "view1")) if not q else (("owned", "view1"), ("view1", "owned")):
                 sbs = [0] + ([1] if w >= 3 else [])
                 for sb in sbs:
-                    for alias in ([0, 1] if mode == "COMBINE" else [0]):
+                    for alias in ([0, 1] if (mode == "COMBINE" and (nc < 600 or not q)) else [0]):
                         d = mat(2, nc, kind)
                         b = mat(2, nc, bkind, "B_")
                         b.pop("B_NR"), b.pop("B_NC")
@@ -93,7 +93,9 @@ def perm_groups(tier, props=("C13", "C09", "C10", "C11")):
                   (mode, 2, 70, 70, kq, (0, 63, 65)), (mode, 2, 70, 70, kq, (5, 64, 69)), (mode, 2, 130, 130, ["view1"], (1, 64, 128))]
     for mode in ["RIGHT_CAPPED", "RIGHT_TRANS_CAPPED"]:
         cases += [(mode, 3, 20, 20, kq, None), (mode, 3, 70, 70, ["view1"], (2, 63, 66))]
-    cases += [("TRI", 3, 8, 8, ["owned", "view1"], None), ("TRI", 7, 7, 7, KINDS, None), ("TRI", 12, 12, 12, ["owned"], (2, 5, 9)), ("TRI", 5, 66, 66, ["view1"], (1, 3, 63))]
+    cases += [("TRI", 3, 8, 8, ["owned", "view1"], None), ("TRI", 7, 7, 7, KINDS, None), ("TRI", 12, 12, 12, ["owned"], (2, 5, 9))]
+    if tier == "thorough":
+        cases += [("TRI", 5, 66, 66, ["view1"], (1, 3, 63))]
     if tier == "thorough":
         for mode in ["RIGHT", "RIGHT_TRANS"]:
             cases += [(mode, 3, 24, 24, KINDS, None)]
